@@ -63,6 +63,8 @@ pub struct FnContract {
     pub exit_ghost: Vec<String>,
     /// `once-true <callee> [ID props]`: after a call of <callee> returned true no further call of it is made
     pub once_true: Option<(String, Clause)>,
+    /// `before-each-call f|g|.. [ID props] expr`: expr is asserted before every statement that calls one of the callees
+    pub before_each: Vec<(Vec<String>, Clause)>,
     /// closure ordinal -> (return type, ensures clause)
     pub closures: BTreeMap<usize, (String, Clause)>,
     pub attrs: Vec<String>, // extra verifier attributes, e.g. exec_allows_no_decreases_clause
@@ -88,15 +90,20 @@ pub struct Unit {
     pub fns: Vec<FnContract>,
     pub preludes: Vec<String>,
     pub type_rewrites: Vec<(String, String)>,
+    /// `x11-arg <expr>`: a call argument with exactly this text is a raw signal pointer held in a rewritten field; it is
+    /// passed on as `<expr>.as_ref()` (X11)
+    pub x11_args: Vec<String>,
+    /// filled by the weaver from the source files: type alias name -> its right-hand side (whitespace removed)
+    pub aliases: BTreeMap<String, String>,
     /// (file, clause with id/props, text that must occur in the file, whitespace-insensitively)
     pub require_texts: Vec<(String, Clause)>,
 }
 
 const FN_KEYS: &[&str] = &[
     "emit-as", "fx", "ret", "requires", "ensures", "decreases", "loop", "bind", "bind?", "exit-assert",
-    "hint", "attr", "shape", "exit-assert-ret", "exit-ghost", "closure", "once-true",
+    "hint", "attr", "shape", "exit-assert-ret", "exit-ghost", "closure", "once-true", "before-each-call",
 ];
-const TOP_KEYS: &[&str] = &["unit", "fxcalls", "guardfn", "tryguardfn", "copy", "fn", "prelude", "typerewrite", "require-text"];
+const TOP_KEYS: &[&str] = &["unit", "fxcalls", "guardfn", "tryguardfn", "copy", "fn", "prelude", "typerewrite", "require-text", "x11-arg"];
 
 fn first_word(l: &str) -> &str {
     l.trim_start().split_whitespace().next().unwrap_or("")
@@ -174,6 +181,7 @@ pub fn parse(text: &str, path: &str) -> Unit {
                 }
                 unit.require_texts.push((file.to_string(), cl));
             }
+            "x11-arg" => unit.x11_args.push(rest.chars().filter(|c| !c.is_whitespace()).collect()),
             "typerewrite" => {
                 let (a, b) = rest.split_once("=>").unwrap_or_else(|| panic!("{}:{}: bad typerewrite", path, ln));
                 unit.type_rewrites.push((a.trim().to_string(), b.trim().to_string()));
@@ -274,6 +282,12 @@ pub fn parse(text: &str, path: &str) -> Unit {
                         let (mut cl, _first) = parse_tag(tail, ln);
                         cl.text = "!once__".to_string();
                         c.once_true = Some((name.to_string(), cl));
+                    }
+                    "before-each-call" => {
+                        let (names, tail) = rest.split_once(char::is_whitespace).unwrap_or_else(|| panic!("{}:{}: before-each-call <f|g> [ID props] expr", path, ln));
+                        let (mut cl, first) = parse_tag(tail, ln);
+                        cl.text = take_text(&lines, &mut i, first);
+                        c.before_each.push((names.split('|').map(|x| x.to_string()).collect(), cl));
                     }
                     "exit-ghost" => {
                         let txt = take_text(&lines, &mut i, rest.trim_start_matches(':').trim().to_string());
